@@ -18,7 +18,7 @@ RULE = ("ops = {fun, grad, fun_and_grad} x points {a, b, c, a' (equal to a, othe
         "(with bounds); model = one memo cell (point, has_f, has_g) and a scale; BFS over "
         "all model states x 18 ops with every edge executed on a fresh real ScalarFunction "
         "by replaying the state's shortest history, and ALL histories to depth 4 (quick) / "
-        "depth 6 over the 15 call ops + depth 5 over all 18 (thorough); oracle per step: "
+        "depth 5 over all 18 ops in 4 modes and depth 6 over the 15 call ops in callable mode (thorough, first variant; depth 4 under the other variants); oracle per step: "
         "value == fresh user value x current scale (bitwise; finite-difference gradient vs a "
         "fresh approx_derivative with the same options), user calls at the requested point "
         "== model expectation (0 if cached), nfev/ngev deltas == logged calls/computations; "
@@ -174,13 +174,17 @@ def cases(tier, variants):
                     for j in range(len(OPS)):
                         yield dict(part="hist", var=v, mode=mode, pre=[i, j], depth=4, alpha="all")
             else:
+                # depth 5 over all 18 ops under the first variant, depth 4 under the others;
+                # depth 6 over the 15 call ops for the callable mode (first variant)
+                d = 5 if v == variants[0] else 4
                 for i in range(len(OPS)):
                     for j in range(len(OPS)):
-                        yield dict(part="hist", var=v, mode=mode, pre=[i, j], depth=5, alpha="all")
-                for i in range(len(CALLS)):
-                    for j in range(len(CALLS)):
-                        yield dict(part="hist", var=v, mode=mode, pre=[i, j], depth=6,
-                                   alpha="calls")
+                        yield dict(part="hist", var=v, mode=mode, pre=[i, j], depth=d, alpha="all")
+                if mode == "callable" and v == variants[0]:
+                    for i in range(len(CALLS)):
+                        for j in range(len(CALLS)):
+                            yield dict(part="hist", var=v, mode=mode, pre=[i, j], depth=6,
+                                       alpha="calls")
 
 
 def nontrivial(hist):
